@@ -730,7 +730,7 @@ namespace bson {
            /* Shift exponent to significand and decrease */
            last_digit++;
  
-           if (last_digit - first_digit > decimal128_limits::max_digits) {
+           if (last_digit - first_digit >= decimal128_limits::max_digits) {
               /* The exponent is too great to shift into the significand. */
               if (significant_digits == 0) {
                  /* Value is zero, we are allowed to clamp the exponent. */
